@@ -43,7 +43,7 @@ var rexpSubst = []map[string]string{
 	{"p": "", "q": "b", "bad": "ab\\"},
 }
 
-var rexpProbes = []string{"", "a", "A", "ab", "a ", "ba", "xx", "xxx", "bx", "abc", "Ab", " a", "5", ":", "z-a", "o", "AB", "B", "a\nb", "{\nab\n}", "{a b}", "x{y}\nz", "xab", "cab$", "pet_id"}
+var rexpProbes = []string{"", "a", "A", "ab", "a ", "ba", "xx", "xxx", "bx", "abc", "Ab", " a", "5", ":", "z-a", "o", "AB", "B", "a\nb", "{\nab\n}", "{a b}", "x{y}\nz", "xab", "cab$", "pet_id", "title:dc", "dc", "b:a"}
 
 // fact: what Go's regexp package says, compiled directly from the pattern text (never through validate's cache)
 func rexpFact(pattern, s string) string {
@@ -263,7 +263,9 @@ func driveRexp(args []string) error {
 		// the texts of the expressions the library compiles for its own use (they share the cache with the caller's patterns)
 		"{[^{}]+?}", ".*[{}\\s]+.*", "{.*[{}\\s]+.*}",
 		// unanchored expressions that begin with literal text
-		"_id$", "ab$", "b\\$"}
+		"_id$", "ab$", "b\\$",
+		// expressions and names containing the separators a memo key might be built with
+		"dc", "dc:title", "^a:b", "a:b:a$"}
 	type rec struct {
 		ticket      int
 		g, pid      int
